@@ -5,7 +5,7 @@ import ast
 from ..kfun import Ev, calls_in, eval_function, is_call_to, paths, same, strip_seq
 from ..tutil import atom, cases, expand, specialise, unseq
 from ..model import AnalysisError, norm_text
-from ..terms import T, walk
+from ..terms import Scope, T, walk
 from .common import loc_of
 
 
@@ -329,7 +329,8 @@ def container_vspaces(ctx, world):
                         z = t.src
                         if is_call_to(z, "builtins.zip") and len(z.args) == 2 and is_shape(z.args[0]) and z.args[1].op == "star" and z.args[1].x is star:
                             e = t.elt
-                            ok = e.op == "call" and e.fn is f and bool(e.args) and _elem(e.args[0], z, 0)
+                            # f(vs, x, y ...) with vs the first component, or f(*elts) with elts the whole zip element
+                            ok = e.op == "call" and e.fn is f and bool(e.args) and (_elem(e.args[0], z, 0) or (len(e.args) == 1 and e.args[0].op == "star" and _elem(e.args[0].x, z)))
             else:
                 xs, idx, x = ps[0], ps[1], ps[2]
                 if cname == "DictVSpace":
@@ -404,45 +405,68 @@ def wrap_namespace(ctx, world):
     m, fn = world.repo.find_def("autograd.numpy.numpy_wrapper", "wrap_namespace")
     loc = loc_of(m, fn)
     q = "autograd.numpy.numpy_wrapper.wrap_namespace"
-    loops = [s for s in fn.body if isinstance(s, ast.For)]
+    # decided by exhaustive valuation of the five classification atoms on the loop-carried term of `new`:
+    #   a0 obj in notrace_functions, a1 callable(obj), a2 type(obj) is type, a3 obj in <int dtype classes>,
+    #   a4 type(obj) in <pass-through types>; the stored value must be the one the priority order prescribes
+    r_, syms, m_, fn_, sc_ = eval_function(world, "autograd.numpy.numpy_wrapper", "wrap_namespace")
+    oldp, newp = syms[fn.args.args[0].arg], syms[fn.args.args[1].arg]
+    lp = sc_.lookup(fn.args.args[1].arg)
+    lp = unseq(expand(world.ev, lp, ("autograd.tracer.notrace_primitive", "autograd.tracer.primitive", "autograd.numpy.numpy_wrapper.wrap_intdtype"))) if lp is not None else None
     ok = None
     why = ""
-    if len(loops) == 1 and isinstance(loops[0].target, ast.Tuple):
-        nv, ov = [e.id for e in loops[0].target.elts]
-        newp = fn.args.args[1].arg
-        chain = []
-        cur = loops[0].body[0] if loops[0].body and isinstance(loops[0].body[0], ast.If) else None
-        while cur is not None:
-            chain.append((cur.test, cur.body))
-            cur = cur.orelse[0] if len(cur.orelse) == 1 and isinstance(cur.orelse[0], ast.If) else None
-        kinds = []
+    if lp is not None and lp.op == "loop" and lp.init is newp and lp.get("it") is not None and lp.it.op == "call" and lp.it.fn.op == "attr" and lp.it.fn.name == "items" and lp.it.fn.obj is oldp:
+        it = lp.it
+        nm = lambda t: t.op == "sub" and t.obj.op == "iterelem" and t.obj.src is it and t.idx.op == "const" and t.idx.value == 0
+        ob = lambda t: t.op == "sub" and t.obj.op == "iterelem" and t.obj.src is it and t.idx.op == "const" and t.idx.value == 1
+        ty = lambda t: is_call_to(t, "builtins.type") and len(t.args) == 1 and ob(t.args[0])
+        tyty = lambda t: t.op == "ref" and t.ref.qual == "builtins.type"
+        def set_of(t, pred):
+            els = t.elts if t.op in ("set", "tuple", "list") else (t.args[0].elts if (t.op == "call" and t.fn.op == "ref" and t.fn.ref.qual in ("builtins.set", "builtins.frozenset") and len(t.args) == 1 and t.args[0].op in ("set", "tuple", "list")) else None)
+            if els is None and t.op == "ref" and t.ref.kind == "repo" and t.ref.okind == "assign":
+                v = world.ev.ev(t.ref.node, Scope(), t.ref.mod)
+                return set_of(v, pred) if v.op != "ref" else False
+            return els is not None and len(els) > 0 and pred(els)
+        ints = lambda els: all(e.op == "ref" and e.ref.qual.startswith("numpy.") and ("int" in e.ref.qual) for e in els)
+        plain = lambda els: any(e.op == "ref" and e.ref.qual == "builtins.float" for e in els) and not any(e.op == "ref" and e.ref.qual.startswith("numpy.") for e in els)
+
+        def kind_of_atom(a):
+            if a.op == "cmp" and a.opname == "In" and ob(a.l) and a.r.op == "ref" and a.r.ref.qual.endswith(".notrace_functions"):
+                return 0
+            if is_call_to(a, "builtins.callable") and len(a.args) == 1 and ob(a.args[0]):
+                return 1
+            if a.op == "cmp" and a.opname == "Is" and ((ty(a.l) and tyty(a.r)) or (ty(a.r) and tyty(a.l))):
+                return 2
+            if a.op == "cmp" and a.opname == "In" and ob(a.l) and set_of(a.r, ints):
+                return 3
+            if a.op == "cmp" and a.opname == "In" and ty(a.l) and set_of(a.r, plain):
+                return 4
+            return None
+
+        def leaf_kind(t):
+            if t.op == "loopvar" and t.name == lp.name and t.node is lp.node:
+                return "none"
+            if t.op == "store" and t.obj.op == "loopvar" and t.obj.name == lp.name and nm(t.idx):
+                v = t.val
+                if ob(v):
+                    return "id"
+                if v.op == "call" and v.fn.op == "ref" and len(v.args) == 1 and ob(v.args[0]) and not v.kw:
+                    return {"autograd.tracer.notrace_primitive": "notrace", "autograd.tracer.primitive": "primitive", "autograd.numpy.numpy_wrapper.wrap_intdtype": "intdtype"}.get(v.fn.ref.qual, f"?{v.fn.ref.qual}")
+                return f"?{str(v)[:40]}"
+            return f"?{str(t)[:40]}"
+
+        import itertools
+
         ok = True
-        for test, body in chain:
-            if not (len(body) == 1 and isinstance(body[0], ast.Assign) and isinstance(body[0].targets[0], ast.Subscript) and isinstance(body[0].targets[0].value, ast.Name) and body[0].targets[0].value.id == newp and isinstance(body[0].targets[0].slice, ast.Name) and body[0].targets[0].slice.id == nv):
+        for val in itertools.product((True, False), repeat=5):
+            a0, a1, a2, a3, a4 = val
+            want = "notrace" if a0 else ("primitive" if (a1 and not a2) else ("intdtype" if (a2 and a3) else ("id" if a4 else "none")))
+            dec = lambda a, val=val: (val[kind_of_atom(a)] if kind_of_atom(a) is not None else None)
+            cs = cases(specialise(lp.next, dec))
+            got = {leaf_kind(c.leaf) for c in cs}
+            if len(cs) != 1 or cs[0].facts or got != {want}:
                 ok = False
-                why = "a branch does not store into new[name]"
+                why = f"with (in notrace list, callable, is a class, int dtype class, pass-through type) = {val} the entry becomes {sorted(got)}, expected '{want}'" + (f" (undecided test: {cs[0].facts[0][0]})" if cs and cs[0].facts else "")
                 break
-            v = body[0].value
-            if isinstance(v, ast.Call) and isinstance(v.func, ast.Name) and len(v.args) == 1 and isinstance(v.args[0], ast.Name) and v.args[0].id == ov:
-                kinds.append((v.func.id, norm_text(test)))
-            elif isinstance(v, ast.Name) and v.id == ov:
-                kinds.append(("id", norm_text(test)))
-            else:
-                ok = False
-                why = f"a branch stores `{norm_text(v)}`"
-                break
-        if ok:
-            names = [k for k, _ in kinds]
-            want = ["notrace_primitive", "primitive", "wrap_intdtype", "id"]
-            if names != want:
-                ok = False
-                why = f"branches are {names}, expected {want}"
-            else:
-                t0, t1 = kinds[0][1], kinds[1][1]
-                if "notrace_functions" not in t0:
-                    ok, why = False, "the first branch does not test membership in notrace_functions"
-                elif not ("callable(" in t1 and "type" in t1):
-                    ok, why = False, "the primitive branch is not `callable(obj) and type(obj) is not type`"
     _ok(ctx, "A13.wrapns", "wrap_namespace: notrace > primitive > intdtype > constant, same name", ok, loc, f"{q}:classification", f"wrap_namespace: {why}", "any autograd.numpy function called on traced values: it is exported untraced, under another name, or a class is wrapped as a function")
     # the namespace is populated from numpy itself
     src_ok = any(isinstance(s, ast.Expr) and isinstance(s.value, ast.Call) and isinstance(s.value.func, ast.Name) and s.value.func.id == "wrap_namespace" for s in m.tree.body)
@@ -454,55 +478,53 @@ def products(ctx, world):
     ctx.describe("A15.products", "hessian_tensor_product = grad of <grad f, v> contracted over all ndim(v) axes w.r.t. the same argnum; tensor_jacobian_product = jacobian of <v, f> with v first, contracted over ndim(v) axes; the extra tensor is the LAST positional argument; make_jvp_reversemode pulls the vjp back at zeros of the OUTPUT space; make_ggnvp composes f_vjp(g_hvp(f_jvp(v)))")
     DO = "autograd.differential_operators"
     ev = world.ev
+    from .kernel_api import _callee_name
+    from .common import resolve_callee
+
     for name, opname, first in (("hessian_tensor_product", "grad", "grad-first"), ("tensor_jacobian_product", "jacobian", "vector-first")):
-        m, fn = world.repo.find_def(DO, name)
+        r, syms, m, fn, sc = eval_function(world, DO, name)
         loc = loc_of(m, fn)
-        inner = [s for s in fn.body if isinstance(s, ast.FunctionDef)]
+        funp, argnump = syms[fn.args.args[0].arg], syms[fn.args.args[1].arg]
+        r = unseq(r) if r is not None else None
         ok = False
         why = "structure not recognised"
-        if len(inner) == 1:
-            f = inner[0]
-            va = f.args.vararg.arg if f.args.vararg else None
-            kw = f.args.kwarg.arg if f.args.kwarg else None
-            # args, vector = args[:-1], args[-1]
-            split = False
-            for s in f.body:
-                if isinstance(s, ast.Assign) and isinstance(s.targets[0], ast.Tuple) and isinstance(s.value, ast.Tuple) and len(s.value.elts) == 2:
-                    a, b = s.value.elts
-                    split = isinstance(a, ast.Subscript) and isinstance(a.slice, ast.Slice) and a.slice.lower is None and isinstance(a.slice.upper, ast.UnaryOp) and isinstance(a.slice.upper.operand, ast.Constant) and a.slice.upper.operand.value == 1 and isinstance(b, ast.Subscript) and isinstance(b.slice, ast.UnaryOp) and isinstance(b.slice.operand, ast.Constant) and b.slice.operand.value == 1
-                    names = [t.id for t in s.targets[0].elts]
-            ret = [s for s in f.body if isinstance(s, ast.Return)]
-            if split and len(ret) == 1 and isinstance(ret[0].value, ast.Call) and getattr(ret[0].value.func, "attr", "") == "tensordot":
-                c = ret[0].value
-                posargs = list(c.args)
-                axes = posargs[2] if len(posargs) > 2 else next((k.value for k in c.keywords if k.arg == "axes"), None)
-                vec = names[1]
-                ax_ok = isinstance(axes, ast.Call) and getattr(axes.func, "attr", "") == "ndim" and isinstance(axes.args[0], ast.Name) and axes.args[0].id == vec
+        # result = <opname>(<inner function>, argnum)
+        if r is not None and r.op == "call" and _callee_name(world, DO, r) == opname and len(r.args) + len(r.kw) == 2 and r.args:
+            an = r.args[1] if len(r.args) > 1 else r.kw.get("argnum")
+            clo, pre, prekw = ev.as_closure(r.args[0])
+            out_ok = an is argnump and clo is not None and not pre and not prekw
+            if not out_ok:
+                why = f"the result is not {opname}(<inner>, argnum)"
+            else:
+                rest0, kwr = T("rest", start=0), T("kwrest")
+                body = unseq(expand(ev, ev.apply(clo, [T("star", x=rest0)], {}, [kwr]), ()))
+                is_vec = lambda t: t.op == "sub" and t.obj is rest0 and t.idx.op == "const" and t.idx.value == -1
+                is_front = lambda t: t.op == "sub" and t.obj is rest0 and t.idx.op == "slice" and t.idx.lo.op == "const" and t.idx.lo.value is None and t.idx.hi.op == "const" and t.idx.hi.value == -1 and t.idx.step.op == "const" and t.idx.step.value is None
 
-                def is_vec(e):
-                    return isinstance(e, ast.Name) and e.id == vec
+                def is_apply(t, callee_pred):
+                    return t.op == "call" and callee_pred(t.fn) and len(t.args) == 1 and t.args[0].op == "star" and is_front(t.args[0].x) and not t.kw and len(t.dstar) == 1 and t.dstar[0] is kwr
 
-                def is_apply(e, callee_pred):
-                    return isinstance(e, ast.Call) and callee_pred(e.func) and len(e.args) == 1 and isinstance(e.args[0], ast.Starred) and isinstance(e.args[0].value, ast.Name) and e.args[0].value.id == names[0] and len(e.keywords) == 1 and e.keywords[0].arg is None
+                def is_grad_of_fun(t):
+                    if not (t.op == "call" and _callee_name(world, DO, t) == "grad"):
+                        return False
+                    a1 = t.args[1] if len(t.args) > 1 else t.kw.get("argnum")
+                    return bool(t.args) and t.args[0] is funp and a1 is argnump
 
-                if first == "grad-first":
-                    # fun_grad = grad(fun, argnum)
-                    gname = None
-                    for s in fn.body:
-                        if isinstance(s, ast.Assign) and isinstance(s.value, ast.Call) and isinstance(s.value.func, ast.Name) and s.value.func.id == "grad" and [getattr(a, "id", None) for a in s.value.args] == [fn.args.args[0].arg, fn.args.args[1].arg]:
-                            gname = s.targets[0].id
-                    order_ok = gname is not None and is_apply(posargs[0], lambda fe: isinstance(fe, ast.Name) and fe.id == gname) and is_vec(posargs[1])
-                else:
-                    order_ok = is_vec(posargs[0]) and is_apply(posargs[1], lambda fe: isinstance(fe, ast.Name) and fe.id == fn.args.args[0].arg)
-                outer = [s for s in fn.body if isinstance(s, ast.Return)]
-                out_ok = len(outer) == 1 and isinstance(outer[0].value, ast.Call) and isinstance(outer[0].value.func, ast.Name) and outer[0].value.func.id == opname and [getattr(a, "id", None) for a in outer[0].value.args] == [f.name, fn.args.args[1].arg]
-                ok = ax_ok and order_ok and out_ok
-                if not ax_ok:
-                    why = "the contraction is not over ndim(vector) axes"
-                elif not order_ok:
-                    why = "operand order / application of the inner function differs"
-                elif not out_ok:
-                    why = f"the result is not {opname}(<inner>, argnum)"
+                rc, _pre = resolve_callee(ev, body) if body.op == "call" else (None, None)
+                if rc is not None and rc.kind == "wrapped" and rc.name == "tensordot" and len(body.args) >= 2:
+                    axes = body.args[2] if len(body.args) > 2 else body.kw.get("axes")
+                    ra, _p = resolve_callee(ev, axes) if axes is not None and axes.op == "call" else (None, None)
+                    ax_ok = axes is not None and ((ra is not None and ra.kind == "wrapped" and ra.name == "ndim" and len(axes.args) == 1 and is_vec(axes.args[0])) or (axes.op == "attr" and axes.name == "ndim" and is_vec(axes.obj)))
+                    a0, a1 = body.args[0], body.args[1]
+                    if first == "grad-first":
+                        order_ok = is_apply(a0, is_grad_of_fun) and is_vec(a1)
+                    else:
+                        order_ok = is_vec(a0) and is_apply(a1, lambda f_: f_ is funp)
+                    ok = bool(ax_ok and order_ok)
+                    if not ax_ok:
+                        why = "the contraction is not over ndim(vector) axes"
+                    elif not order_ok:
+                        why = "operand order / application of the inner function differs"
         _ok(ctx, "A15.products", name, ok, loc, f"{DO}.{name}", f"{name}: {why}", "a function with a matrix-shaped argument and a tensor of rank 2, argnum=1")
     # make_jvp_reversemode
     r, syms, m, node, sc = eval_function(world, DO, "make_jvp_reversemode")
@@ -513,7 +535,7 @@ def products(ctx, world):
         outer_call = r.obj
         if is_call_to(outer_call, "autograd.core.make_vjp") and len(outer_call.args) == 2:
             f0, z = outer_call.args
-            inner_mv = [t for t in mvs if t is not outer_call and t.args[0] is syms["fun"] and t.args[1] is syms["x"]]
+            inner_mv = [t for t in mvs if t is not outer_call and t.args[0] is syms["#0"] and t.args[1] is syms["#1"]]
             if inner_mv:
                 im = inner_mv[0]
                 ok = f0.op == "sub" and f0.obj is im and f0.idx.value == 0 and z.op == "call" and z.fn.op == "attr" and z.fn.name == "zeros" and is_call_to(z.fn.obj, "autograd.core.vspace") and z.fn.obj.args[0].op == "sub" and z.fn.obj.args[0].obj is im and z.fn.obj.args[0].idx.value == 1
